@@ -81,4 +81,7 @@ CLAIMS["C19"] = {"engine": "chainsim", "level": "exploration", "design_ref": "4/
 CLAIMS["C03"] = {"engine": "chainsim", "level": "exploration", "design_ref": "4/C03", "technique": "deterministic simulation with a tampering-peer fault: single-rule, correctly re-signed mutants of valid successors offered to whole nodes in reachable states; full database dump, tip and event comparison after each rejection",
     "text": "Nodes of a simulated network (forks, syncs, validator changes, restarts) are offered single-rule mutants of blocks that are valid successors of their current state; each mutant must be rejected leaving tip, blockchain DB, application state DB and published chain events exactly as they were. Sampling of states and mutants.",
     "note": _chain_note + " The valid-successor premise rests on the block being signed by an honest validator and linking to the node's tip."}
+CLAIMS["C06"] = {"engine": "chainsim", "level": "exploration", "design_ref": "4/C06", "technique": "deterministic simulation of whole nodes certifying and aggregating among themselves, plus a certificate-forger fault: aggregate and single commits built from drawn heights, signer subsets and tamperings whose admissibility is known by construction, compared with the node's verdict; own-aggregate self-check after every generator tick",
+    "text": "Nodes run the real certificate pipeline on chains that leave the first 100 heights; every aggregate commit a node would embed must pass its own verification, forged aggregate commits must be accepted exactly when construction says they are admissible (incl. the next-parameter bound and the weight threshold), and forged single commits must not enter the pool unless valid. Sampling of chain positions, subsets and tamperings.",
+    "note": _chain_note + " BLS primitives trusted; zero-padded aggregation bits give no verdict."}
 PENDING = {}
